@@ -540,3 +540,48 @@ func init() {
 		fmt.Println("REPLAY: not-reproduced")
 	}
 }
+
+func init() {
+	replayers["(*AppenderRefs).sortByLevel"] = func(in map[string]any) {
+		levels := []Level{NoneLevel, DebugLevel, InfoLevel, WarnLevel, ErrorLevel}
+		type rng struct{ min, max Level }
+		var cases [][]rng
+		// all sequences of 1..3 refs with lower bounds from `levels`, open-ended or closed at ERROR/MAX-adjacent
+		for _, a := range levels {
+			cases = append(cases, []rng{{a, MaxLevel}})
+			for _, b := range levels {
+				cases = append(cases, []rng{{a, MaxLevel}, {b, MaxLevel}}, []rng{{a, ErrorLevel}, {b, MaxLevel}})
+				for _, c := range levels {
+					cases = append(cases, []rng{{a, MaxLevel}, {b, MaxLevel}, {c, MaxLevel}}, []rng{{a, MaxLevel}, {b, FatalLevel}, {c, MaxLevel}})
+				}
+			}
+		}
+		for _, cs := range cases {
+			refs := &AppenderRefs{}
+			var objs []*AppenderRef
+			for _, r := range cs {
+				o := &AppenderRef{Appender: &recAppender{}, Level: LevelRange{r.min, r.max}}
+				objs = append(objs, o)
+				refs.AppenderRefs = append(refs.AppenderRefs, o)
+			}
+			refs.sortByLevel()
+			for i, o := range objs {
+				want := cs[i].max
+				if cs[i].max == MaxLevel {
+					want = MaxLevel
+					for _, r := range cs {
+						if r.min.code > cs[i].min.code && (want == MaxLevel || r.min.code < want.code) {
+							want = r.min
+						}
+					}
+				}
+				if o.Level.MinLevel != cs[i].min || o.Level.MaxLevel != want {
+					fmt.Printf("REPLAY: confirmed sortByLevel on refs %v: ref %d became [%s,%s), want [%s,%s) (an open-ended reference ends at the next HIGHER lower bound; equal lower bounds share the range)\n",
+						cs, i, o.Level.MinLevel.name, o.Level.MaxLevel.name, cs[i].min.name, want.name)
+					return
+				}
+			}
+		}
+		fmt.Println("REPLAY: not-reproduced")
+	}
+}
